@@ -199,6 +199,7 @@ class CSim:
         self.sz = ctypes.sizeof(self.P)
         self.off_m, self.off_y, self.off_h = self.P.m.offset, self.P.y.offset, self.P._hash.offset
         self.off_ap = self.P.ap.offset
+        self.expect_ap = type(self) is CSim        # particles built by mk() carry ap = 16*id
 
     def drain(self, sim=None):
         sim = sim or self.sim
@@ -227,7 +228,7 @@ class CSim:
                 if i < n:
                     ps.append((ident, h, fl))
                     ap = struct.unpack_from("<Q", buf, o + self.off_ap)[0]
-                    if ap and ap != ident * 16:
+                    if ident and self.expect_ap and ap != ident * 16:
                         ap_bad.append((i, ident, ap))
                 else:
                     tail = (tail + (ident * 1000003 + h * 7 + fl + 1) * (i + 1)) % DIGEST_MOD
@@ -978,6 +979,338 @@ class MemReplay:
                     out=q.stdout.splitlines())
 
 
+# ----------------------------------------------------------------------------- cross-cutting dimensions
+INTEGRATORS = {"ias15": 0, "whfast": 1, "leapfrog": 4, "janus": 8, "mercurius": 9, "saba": 10, "eos": 11, "bs": 12, "trace": 25, "none": 7}
+
+
+def planet_line(h, a, m=1e-4, r=0.0, phase=0.0, dirn=1.0):
+    v = dirn / math.sqrt(a)
+    return "addo %d %r %r %r %r 0.0 %r %r 0.0" % (h, m, r, a * math.cos(phase), a * math.sin(phase), -v * math.sin(phase), v * math.cos(phase))
+
+
+def step_history(rng, integ, nops, opts):
+    """add / remove / remove-by-hash / remove-all between steps, one real step after EVERY structural operation.
+    Returns harness lines and, per line, what a plain list says about (rc, N, N_active) (None = do not compare)."""
+    lines, want = [], []
+    def emit(l, w=None):
+        lines.append(l); want.append(w)
+    emit("new 0 0 0 %d" % INTEGRATORS[integ])
+    emit("set dt %r" % opts.get("dt", 0.01))
+    for k, v in opts.items():
+        if k != "dt":
+            emit("set %s %r" % (k, v))
+    ref = Ref(dict(tree="none", box=False, integrator=integ))
+    nxt = [100]
+    def add(a=None, m=1e-4):
+        h = nxt[0]; nxt[0] += 1
+        a = a if a is not None else 1.0 + 0.37 * (h - 99)
+        ref.add(h, h, 0)
+        emit(planet_line(h, a, m, phase=0.7 * h), (0, len(ref.ps), ref.active))
+    def populate():
+        ref.add(1, 1, 0)
+        emit("addo 1 1.0 0.0 0.0 0.0 0.0 0.0 0.0 0.0", (0, len(ref.ps), ref.active))
+        for _ in range(rng.randint(2, 5)):
+            add(m=0.0 if rng.chance(0.25) else 1e-4)
+    populate()
+    emit("step 1", (0, len(ref.ps), ref.active))
+    # every history: grow after the first step, step, shrink, step, grow beyond the previous maximum, step
+    add(); emit("step 1", (0, len(ref.ps), ref.active))
+    out = ref.remove(1, 1); emit("rm 1 1", (1, len(ref.ps), ref.active)); emit("step 1", (0, len(ref.ps), ref.active))
+    add(); add(); emit("step 1", (0, len(ref.ps), ref.active))
+    for _ in range(nops):
+        x = rng.uniform()
+        n = len(ref.ps)
+        if x < 0.35 or n < 3:
+            add(m=0.0 if rng.chance(0.3) else 1e-4)
+        elif x < 0.60:
+            idx = rng.randint(1, n - 1)          # (the central body stays: every integrator must keep stepping)
+            ks = rng.randint(0, 1)
+            out = ref.remove(idx, ks)
+            emit("rm %d %d" % (idx, ks), (1 if out in ("removed", "lastRemoved") else 0, len(ref.ps), ref.active))
+        elif x < 0.78:
+            i = rng.randint(1, n - 1)
+            h = ref.ps[i][1]
+            ks = rng.randint(0, 1)
+            out = ref.remove(i, ks)
+            emit("rmh %d %d" % (h, ks), (1 if out in ("removed", "lastRemoved") else 0, len(ref.ps), ref.active))
+        elif x < 0.90:
+            k = rng.choice([-1, 1, max(1, n // 2), n])
+            ref.set_active(k)
+            emit("set nactive %d" % k, (0, len(ref.ps), ref.active))
+        elif x < 0.95:
+            emit("rmh 999999 1", (0, len(ref.ps), ref.active))      # unknown hash
+            emit("rm %d 1" % (n + 2), (0, len(ref.ps), ref.active))  # out of range
+        else:
+            ref.remove_all()
+            emit("rmall", (0, 0, -1))
+            populate()
+        if len(ref.ps) >= 2 and ref.ps[0][0] == 1 and ref.active != 0:
+            emit("step 1", (0, len(ref.ps), ref.active))
+    return lines, want
+
+
+def collision_history(rng, integ, mode, keep_sorted, boundary):
+    """the internal callers of reb_simulation_remove_particle: merging collisions and the open boundary"""
+    L = ["new 0 0 0 %d" % INTEGRATORS[integ], "set dt 0.02"]
+    if mode in (2, 5) or boundary:
+        L.append("set box 40.0" if not boundary else "set box 14.0")
+    if boundary:
+        L.append("set boundary 1")
+    if mode:
+        L += ["set collision %d" % mode, "set merge 1", "set keepsorted %d" % keep_sorted, "set trackenergy %d" % rng.randint(0, 1)]
+    L.append("addo 1 1.0 0.02 0.0 0.0 0.0 0.0 0.0 0.0")
+    h = 100
+    for k in range(rng.randint(6, 9)):
+        h += 1
+        if mode and k % 2 == 0:     # two bodies on the same orbit, opposite directions: they meet within a few steps
+            a = 1.0 + 0.2 * k
+            L.append(planet_line(h, a, 1e-4, 0.06, 0.0, 1.0)); h += 1
+            L.append(planet_line(h, a, 1e-5, 0.06, 0.6, -1.0))      # lighter: the merged body stays on a bound orbit away from the star
+        elif boundary and k % 2 == 1:
+            L.append("addo %d 1e-5 0.0 %r 0.5 0.0 3.0 0.0 0.0" % (h, 2.0 + 0.1 * k))     # unbound, leaves the box
+        else:
+            L.append(planet_line(h, 2.5 + 0.2 * k, 1e-4, 0.01, 0.4 * k))
+    if rng.chance(0.5):
+        L.append("set nactive %d" % rng.randint(2, 5))
+    L += ["step 1"] * (70 if not boundary else 130)
+    if mode in (2, 5):
+        L.append("tupd")
+    # who is still there?  (kind: 's' star / background must survive, 'u' unbound must be gone, 'p' one of each pair survives)
+    kinds = {}
+    for l in L:
+        if l.startswith("addo"):
+            t = l.split()
+            hh = int(t[1])
+            kinds[hh] = "s" if hh == 1 else ("u" if (boundary and t[5] == "0.5") else ("p" if t[3] == "0.06" else "s"))
+    for hh in sorted(kinds):
+        L.append("get %d" % hh)
+    return L, kinds
+
+
+def dims_harness(c, mr, dims, mr_valgrind=None):
+    """dimensions that need real time steps: run in the harness (valgrind / ASan+UBSan), with the harness' own lookup
+    oracle and a plain-list oracle for N and N_active.  ASan does not see reads of uninitialised (freshly realloc'ed)
+    side arrays, valgrind does: in the thorough tier the step histories run under both."""
+    rng = c.rng.fork()
+    nh = 3 if c.thorough else 1
+    variants = [("default", {}), ("safe_mode0", {"safemode": 0}), ("negative_dt", {"dt": -0.01}), ("testparticle_type1", {"tptype": 1})]
+    for integ in INTEGRATORS:
+        for rep in range(nh):
+            for vname, opts in (variants if (c.thorough or integ in ("whfast", "mercurius", "trace", "ias15")) else variants[:1]):
+                if integ == "none" and vname != "default":
+                    continue
+                o = dict(opts)
+                if integ == "whfast":
+                    o["coords"] = rng.randint(0, 3)
+                lines, want = step_history(rng, integ, 14 if not c.thorough else 30, o)
+                res = mr.run_text(lines, timeout=600)
+                if not res["bad"] and mr_valgrind is not None:
+                    res = mr_valgrind.run_text(lines, timeout=900)
+                key = "step_after_each_structural_op:" + integ
+                bad = None
+                if res["bad"]:
+                    bad = "memory error: " + res["report"][:400].replace("\n", " | ")
+                elif len(res["out"]) != len(lines):
+                    bad = "harness answered %d lines for %d operations" % (len(res["out"]), len(lines))
+                else:
+                    for i, (l, w, got) in enumerate(zip(lines, want, res["out"])):
+                        g = [int(t) for t in got.split()]
+                        if g[4] != 0:
+                            bad = "after %r (line %d) %d live particles are not found under their own hash" % (l, i, g[4]); break
+                        if w is not None and (l.startswith(("rm", "addo", "rmall", "step", "set nactive"))):
+                            exp_rc, exp_n, exp_na = w
+                            if g[1] != exp_n or g[2] != exp_na or (l.startswith("rm") and not l.startswith("rmall") and g[0] != exp_rc):
+                                bad = "after %r (line %d): rc=%d N=%d N_active=%d, a plain list says rc=%d N=%d N_active=%d" % (
+                                    l, i, g[0], g[1], g[2], exp_rc, exp_n, exp_na); break
+                nstruct = sum(1 for l in lines if l.startswith(("rm", "addo")))
+                dims[key] = dims.get(key, 0) + nstruct
+                dims["option:" + vname] = dims.get("option:" + vname, 0) + nstruct
+                dims["roles:N_active_set"] = dims.get("roles:N_active_set", 0) + sum(1 for l in lines if l.startswith("set nactive"))
+                dims["roles:massless_particles"] = dims.get("roles:massless_particles", 0) + sum(1 for l in lines if l.startswith("addo") and " 0.0 0.0 " in l[:40])
+                c.count(("dim-step", integ, vname), n=len(lines))
+                if bad:
+                    vkey = "C14:%s:%s" % (key, vname)
+                    rep_ = res["report"]
+                    if integ == "mercurius" and vname == "safe_mode0" and "uninitialised" in rep_ and "reb_integrator_mercurius_L_" in rep_ \
+                            and "reb_integrator_mercurius_synchronize" in rep_ and "Invalid" not in rep_:
+                        vkey = "F21:mercurius-safe_mode0-add-then-step-synchronizes-with-uninitialised-dcrit"
+                    c.violation(vkey, "%s, options %s: %s" % (integ, o, bad),
+                                {"integrator": integ, "options": o, "harness_lines": lines, "report": res["report"]})
+    # internal removals
+    for integ in ("ias15", "leapfrog", "whfast", "mercurius", "trace", "bs"):
+        for mode, bnd in ((1, False), (4, False), (2, False), (5, False), (0, True)):
+            if not c.thorough and rng.chance(0.5) and not (integ in ("mercurius", "trace") and mode in (1, 0)):
+                continue
+            if integ in ("mercurius", "trace") and mode in (2, 5):
+                continue          # forced keep_sorted + tree: every merge is refused (documented error), nothing to observe
+            ks = rng.randint(0, 1)
+            L, kinds = collision_history(rng, integ, mode, ks, bnd)
+            res = mr.run_text(L, timeout=600)
+            key = "internal_removal:" + ("boundary_open" if bnd else "collision_mode_%d" % mode)
+            bad, removed = None, 0
+            if res["bad"]:
+                bad = "memory error: " + res["report"][:400].replace("\n", " | ")
+            elif len(res["out"]) != len(L):
+                bad = "harness answered %d lines for %d operations" % (len(res["out"]), len(L))
+            else:
+                prev = None
+                for i, (l, got) in enumerate(zip(L, res["out"])):
+                    g = [int(t) for t in got.split()]
+                    if g[4] != 0:
+                        bad = "after %r (line %d) %d live particles are not found under their own hash" % (l, i, g[4]); break
+                    if l == "step 1" or l == "tupd":
+                        if prev is not None and g[1] > prev:
+                            bad = "N grew from %d to %d during %r" % (prev, g[1], l); break
+                        if prev is not None:
+                            removed += prev - g[1]
+                        if g[2] > g[1] and mode not in (2, 5):
+                            bad = "N_active=%d > N=%d after %r (line %d)" % (g[2], g[1], l, i); break
+                        prev = g[1]
+                    elif l.startswith("addo"):
+                        prev = g[1]
+                gets = [(int(l.split()[1]), int(got.split()[0]), int(got.split()[1])) for l, got in zip(L, res["out"]) if l.startswith("get ")]
+                if not bad and gets:
+                    nfin = gets[-1][2]
+                    found = {hh for hh, rc_, _ in gets if rc_ >= 0}
+                    if any(rc_ >= nfin for _, rc_, _ in gets):
+                        bad = "a lookup returned an index beyond N=%d" % nfin
+                    elif len(found) != nfin:
+                        bad = "%d hashes are found but N=%d" % (len(found), nfin)
+                    elif bnd and any(kinds[hh] == "s" and hh not in found for hh in kinds):     # (who merges with whom is C13's business)
+                        bad = "a particle that neither collided nor left the box has disappeared: %s" % sorted(hh for hh in kinds if kinds[hh] == "s" and hh not in found)
+                    elif bnd and any(kinds[hh] == "u" and hh in found for hh in kinds):
+                        bad = "an unbound particle that left the box is still there: %s" % sorted(hh for hh in kinds if kinds[hh] == "u" and hh in found)
+                    elif bnd and len(kinds) - len(found) > sum(1 for hh in kinds if kinds[hh] == "u"):
+                        bad = "more particles are gone than could leave the box"
+                if not bad and mode in (2, 5):
+                    g = [int(t) for t in [x for l_, x in zip(L, res["out"]) if l_ == "tupd"][-1].split()]
+                    if g[2] > g[1]:
+                        bad = "N_active=%d > N=%d after the tree update" % (g[2], g[1])
+            dims[key] = dims.get(key, 0) + removed
+            dims["internal_removal:keep_sorted_%d" % ks] = dims.get("internal_removal:keep_sorted_%d" % ks, 0) + removed
+            c.count(("dim-internal", integ, mode, bnd, ks), n=len(L))
+            if bad:
+                c.violation("C14:%s:%s" % (key, integ), "%s, keep_sorted=%d: %s" % (integ, ks, bad),
+                            {"integrator": integ, "harness_lines": L, "report": res["report"]})
+
+
+def dims_container(c, rebound, dims):
+    """Python layer: every way in and out of the container, against a plain list of (id, hash)"""
+    import warnings, tempfile as _tf
+    def ids(sim):
+        return [(int(p.m), p.hash.value) for p in sim.particles]
+    def check(sim, ref, what, dim):
+        dims[dim] = dims.get(dim, 0) + 1
+        c.count(("dim-py", dim))
+        got = ids(sim)
+        if got != ref or sim.N != len(ref):
+            c.violation("C14:python:" + dim, "%s: simulation holds %s, a plain list holds %s" % (what, got[:10], ref[:10]), {"what": what})
+            return False
+        for i, (m, h) in enumerate(ref):          # every particle is found under its hash (first/last duplicate allowed)
+            if h:
+                q = sim.particles[ctypes.c_uint32(h)]
+                if q.hash.value != h:
+                    c.violation("C14:python:lookup:" + dim, "%s: lookup of hash %d returns a particle with hash %d" % (what, h, q.hash.value), {})
+        return True
+    H = lambda x: rebound.hash(x).value
+    with warnings.catch_warnings():
+        warnings.simplefilter("ignore")
+        # --- add forms and hash types
+        sim = rebound.Simulation(); ref = []
+        sim.add(m=1.0, hash="star"); ref.append((1, H("star")))
+        sim.add(m=2.0, x=1.0, hash=77); ref.append((2, 77))
+        sim.add(m=3.0, x=2.0, hash=ctypes.c_uint32(4000000000)); ref.append((3, 4000000000))
+        sim.add(m=4.0, x=3.0); ref.append((4, 0))
+        p = rebound.Particle(m=5.0, x=4.0, hash="obj"); sim.add(p); ref.append((5, H("obj")))
+        sim.add([rebound.Particle(m=6.0, x=5.0, hash="l1"), rebound.Particle(m=7.0, x=6.0)]); ref += [(6, H("l1")), (7, 0)]
+        sim.add(primary=sim.particles[0], m=8.0, a=7.0, hash="orb"); ref.append((8, H("orb")))
+        check(sim, ref, "add by kwargs / Particle / list / orbit, hash = str / int / c_uint32 / unset", "python:add_forms_and_hash_types")
+        other = rebound.Simulation(); other.add(m=9.0, x=0.5, hash="from_other"); other.add(m=10.0, x=1.5, hash="second")
+        sim.add(other.particles[0]); ref.append((9, H("from_other")))
+        sim.add(other.particles["second"]); ref.append((10, H("second")))
+        ok = check(sim, ref, "add a particle that lives in another simulation", "python:add_from_other_simulation")
+        dims["python:add_from_other_simulation"] += 1
+        if ctypes.addressof(sim.particles[-1]._sim.contents) != ctypes.addressof(sim):
+            c.violation("C14:python:sim-pointer", "a particle added from another simulation keeps pointing at the other simulation", {})
+        del other
+        if int(sim.particles["from_other"].m) != 9:
+            c.violation("C14:python:add_from_other_simulation", "lookup of a particle added from another (deleted) simulation fails", {})
+        # --- rename, old and new name
+        sim.particles["obj"].hash = "renamed"; ref[4] = (5, H("renamed"))
+        check(sim, ref, "rename through particle.hash = str", "python:rename")
+        try:
+            sim.particles["obj"]
+            c.violation("C14:python:rename", "the old name is still found after the rename", {})
+        except rebound.ParticleNotFound:
+            pass
+        if int(sim.particles["renamed"].m) != 5:
+            c.violation("C14:python:rename", "the new name finds the wrong particle", {})
+        sim.particles[3].hash = ctypes.c_uint32(123456); ref[3] = (4, 123456)
+        sim.particles[6].hash = 654321; ref[6] = (7, 654321)
+        check(sim, ref, "rename through particle.hash = c_uint32 / int", "python:rename")
+        # --- assignment sim.particles[i] = p (index, negative index, name)
+        q = rebound.Particle(m=20.0, x=9.0, hash="assigned"); sim.particles[1] = q; ref[1] = (20, H("assigned"))
+        q = rebound.Particle(m=21.0, x=9.5, hash="assigned2"); sim.particles[-1] = q; ref[-1] = (21, H("assigned2"))
+        q = rebound.Particle(m=22.0, x=9.7, hash="assigned3"); sim.particles["star"] = q; ref[0] = (22, H("assigned3"))
+        check(sim, ref, "sim.particles[k] = Particle for k = index / negative index / name", "python:setitem")
+        if ctypes.addressof(sim.particles[1]._sim.contents) != ctypes.addressof(sim):
+            c.violation("C14:python:setitem", "an assigned particle does not point at its simulation", {})
+        # --- removal while iterating (over a snapshot of the hashes), del, remove by every key type
+        for h in [x[1] for x in ref if x[0] % 2 == 0]:
+            sim.remove(hash=ctypes.c_uint32(h))
+            ref = [x for x in ref if x[1] != h]
+        check(sim, ref, "remove the even ids by hash while walking a snapshot", "python:iterate_and_remove")
+        n0 = sim.N
+        for _ in list(sim.particles)[:2]:
+            sim.remove(0)
+            ref.pop(0)
+        check(sim, ref, "remove(0) inside a loop over list(sim.particles)", "python:iterate_and_remove")
+        del sim.particles[-1]; ref.pop()
+        check(sim, ref, "del sim.particles[-1]", "python:iterate_and_remove")
+        # --- restore paths: the lookup table is not persisted and must be rebuilt lazily
+        sim = rebound.Simulation(); ref = []
+        for i in range(1, 140):
+            sim.add(m=float(i), x=float(i), hash=("n%d" % i) if i % 3 else 0); ref.append((i, H("n%d" % i) if i % 3 else 0))
+        _ = sim.particles["n1"]                    # table built before the save
+        fn = os.path.join(_tf.mkdtemp(prefix="c14sa.", dir=os.environ.get("VERIF_TMP", "/tmp")), "a.bin")
+        sim.save_to_file(fn)
+        for label, mk in (("archive", lambda: rebound.Simulation(fn)), ("copy", lambda: sim.copy()),
+                          ("pickle", lambda: __import__("pickle").loads(__import__("pickle").dumps(sim))),
+                          ("simulationarchive", lambda: rebound.Simulationarchive(fn)[0])):
+            s2 = mk()
+            r2 = list(ref)
+            check(s2, r2, "lookups after restore via " + label, "restore_then_lookup:" + label)
+            s2.remove(hash="n2"); r2 = [x for x in r2 if x[1] != H("n2")]
+            s2.add(m=1000.0, x=-1.0, hash="fresh"); r2.append((1000, H("fresh")))
+            check(s2, r2, "remove + add + lookups after restore via " + label, "restore_then_lookup:" + label)
+        shutil.rmtree(os.path.dirname(fn), ignore_errors=True)
+        # --- scale: N across 128 and 1024, up and down, lookups on the way
+        sim = rebound.Simulation(); ref = []
+        for i in range(1, 1101):
+            sim.add(m=float(i), x=float(i), hash=i + 5); ref.append((i, i + 5))
+            if i in (127, 128, 129, 1023, 1024, 1025, 1100):
+                check(sim, ref, "after %d adds" % i, "scale:N_up_across_128_and_1024")
+        k = 0
+        while sim.N > 100:
+            k += 1
+            if k % 3 == 0:
+                j = (k * 7919) % sim.N
+                sim.remove(index=j, keep_sorted=True); ref.pop(j)
+            elif k % 3 == 1:
+                j = (k * 104729) % sim.N
+                sim.remove(hash=ref[j][1], keep_sorted=False)
+                last = ref.pop()
+                if j < len(ref):
+                    ref[j] = last
+            else:
+                sim.remove(index=sim.N - 1); ref.pop()
+            if sim.N in (1025, 1024, 1023, 129, 128, 127, 100):
+                check(sim, ref, "after removing down to %d" % sim.N, "scale:N_down_across_1024_and_128")
+        for i in range(150):
+            sim.add(m=5000.0 + i, x=-float(i), hash=20000 + i); ref.append((5000 + i, 20000 + i))
+        check(sim, ref, "grown again to %d" % sim.N, "scale:N_up_across_128_and_1024")
+
+
 # ----------------------------------------------------------------------------- main
 def run(c):
     d = build()
@@ -1221,6 +1554,44 @@ def run(c):
         pass
 
     mercurius_probe(c, rebound)
+
+    # ---- cross-cutting dimensions (BUILDERS-deepen.md): every applicable dimension must have been exercised
+    dims = {}
+    try:
+        dims_container(c, rebound, dims)
+    except (Infra, subprocess.TimeoutExpired):
+        raise
+    except Exception as ex:
+        import traceback
+        c.violation("C14:python:container-dimension-exception:" + type(ex).__name__,
+                    "the container answered in a way the checker has no case for: %s" % str(ex)[:200], {"traceback": traceback.format_exc()[-2000:]})
+    if mr is not None:
+        mrv = None
+        if c.thorough:
+            try:
+                mrv = MemReplay(d, sanitize=False)
+            except Infra:
+                mrv = None
+        dims_harness(c, mr, dims, mrv)
+    dims["roles:N_active_set_in_tie"] = stats["ops"].get("setactive", 0)
+    dims["variational_particles_present"] = stats["ops"].get("addvar", 0) + stats["ops"].get("setnvar", 0)
+    dims["callback:free_particle_ap_installed"] = sum(stats["ops"].get(k, 0) for k in ("rm", "rmh"))
+    dims["ap_pointer_travels_with_particle"] = stats["ap_checked"]
+    dims["histories:tree_update_between_ops"] = stats["ops"].get("tupd", 0)
+    dims["histories:mercurius_step_between_ops_in_tie"] = stats["ops"].get("istep", 0)
+    dims["scale:allocation_steps_in_tie"] = sum(stats["growth"].values())
+    c.cov["dimensions"] = dims
+    required = ["step_after_each_structural_op:" + k for k in INTEGRATORS] + [
+        "internal_removal:collision_mode_1", "internal_removal:boundary_open", "option:safe_mode0", "option:negative_dt",
+        "option:testparticle_type1", "roles:N_active_set", "roles:massless_particles", "python:add_forms_and_hash_types",
+        "python:add_from_other_simulation", "python:rename", "python:setitem", "python:iterate_and_remove",
+        "restore_then_lookup:archive", "restore_then_lookup:copy", "restore_then_lookup:pickle", "restore_then_lookup:simulationarchive",
+        "scale:N_up_across_128_and_1024", "scale:N_down_across_1024_and_128", "roles:N_active_set_in_tie", "variational_particles_present",
+        "callback:free_particle_ap_installed", "ap_pointer_travels_with_particle", "histories:tree_update_between_ops",
+        "histories:mercurius_step_between_ops_in_tie", "scale:allocation_steps_in_tie"]
+    for k in required:
+        if not dims.get(k):
+            c.broken.append("dimension %s not covered" % k)
 
     c.cov["op_histogram"] = stats["ops"]
     c.cov["outcome_histogram"] = stats["outs"]
